@@ -95,6 +95,11 @@ def run(ctx):
     for name, g in long_name_graphs(I):
         roundtrip_case(ctx, I, name, [g], vocab_v1() if "deep" in name else None, coq_cases, corpus=True)
 
+    # unusual-but-legal attribute names in a Copyable's state ("" / "0" / " " / opentype and vocabulary words / a copytype / long /
+    # non-ASCII) x every value kind, alone and in containers / cycles (fixed witnesses; thorough: every name of I.ATTR_NAMES)
+    for name, g in attrname_graphs(I, full=ctx.tier == "thorough"):
+        roundtrip_case(ctx, I, name, [g], vocab_v1() if ("/nested" in name or "/bytes" in name) else None, coq_cases, corpus=True)
+
     # ---- 2. findings: deterministic witnesses of the known-defective region
     finding_witnesses(ctx, I)
 
@@ -153,7 +158,7 @@ def run(ctx):
     for name, argsets in late_registration_calls(I):
         call_case(ctx, I, name, argsets, coq_cases, vi=None, chunk="one")
         call_case(ctx, I, name + "/bytewise", argsets, coq_cases, vi=1, chunk="bytewise")
-    for name, argsets in same_object_calls(I) + late_tuple_calls(I) + computed_copy_calls(I) + long_name_calls(I):
+    for name, argsets in same_object_calls(I) + late_tuple_calls(I) + computed_copy_calls(I) + long_name_calls(I) + attrname_calls(I):
         call_case(ctx, I, name, argsets, coq_cases, vi=None, chunk="one")
         call_case(ctx, I, name + "/bytewise", argsets, coq_cases, vi=1, chunk="bytewise")
 
@@ -622,6 +627,76 @@ def shared_through_copyable_graphs(I):
     b = box(x=l); l.append(b)
     out.append(("copy-first-cycle", [b, l]))
     return out
+
+
+def _attr_values(I):
+    """one value of every token kind / container kind (fresh objects on every call)"""
+    D = decimal.Decimal
+    inner = I.CB(); inner.__dict__.update({"": 1, "v": [2]})
+    shared = [b"shared"]
+    return [("int", 7), ("zero", 0), ("neg", -3), ("longint", 2 ** 70), ("longneg", -(2 ** 70)), ("float", 1.5), ("bytes", b"default"),
+            ("empty-bytes", b""), ("vocab-bytes", b"list"), ("text", "z"), ("empty-text", ""), ("true", True), ("false", False),
+            ("none", None), ("decimal", D("1.10")), ("list", [1, [2]]), ("empty-list", []), ("tuple", (1, (2,))), ("dict", {"": 1, "k": ""}),
+            ("set", {4, 5}), ("frozenset", frozenset([6])), ("copy", inner), ("shared-twice", [shared, shared])]
+
+
+def _with_state(cls, pairs):
+    c = cls()
+    for k, v in pairs:
+        c.__dict__[k] = v
+    return c
+
+
+def attrname_graphs(I, full=False):
+    """registered Copyables whose state dictionary has unusual-but-legal attribute names (I.ATTR_NAMES: "", "0", " ", opentype /
+    vocabulary words, a copytype, long, non-ASCII ...) x a value of every token kind, the unusual name FIRST / in the MIDDLE / LAST
+    in the state, alone and inside containers / cycles.  The rule is the property's: arrives equal in value and type."""
+    out = []
+    # the fixed witnesses of the empty name: an int, a byte string, a text (first, with pairs behind it that would shift)
+    out.append(("attrname-empty/int", [_with_state(I.CA, [("", 7)])]))
+    out.append(("attrname-empty/bytes", [_with_state(I.CA, [("", b"x")])]))
+    out.append(("attrname-empty/text", [_with_state(I.CB, [("", "s")])]))
+    out.append(("attrname-empty/int-then-more", [_with_state(I.CA, [("", 7), ("zeta", "z")])]))
+    out.append(("attrname-empty/bytes-then-more", [_with_state(I.CC, [("a", b""), ("", b"x"), ("b", 2.5), ("c", b"c")])]))
+    out.append(("attrname-empty/last", [_with_state(I.CD, [("alpha", 1), ("beta", [1, 2]), ("", b"default")])]))
+    names = I.ATTR_NAMES if full else I.ATTR_NAMES[:8] + I.ATTR_NAMES[21:24:2] + I.ATTR_NAMES[26:34:2] + I.ATTR_NAMES[34:35]
+    for ni, nm in enumerate(names):
+        tag = "attrname-%d(%s)" % (ni, ascii(nm)[1:13])
+        # every value kind under that name: first / middle / last key of the state
+        cs = []
+        for vi, (vk, v) in enumerate(_attr_values(I)):
+            pairs = [("before", vi), (nm, v), ("after", b"after")]
+            pairs = [pairs[(j + vi) % 3] for j in range(3)] if vi % 3 else pairs
+            cs.append(_with_state(I.COPYABLES[(ni + vi) % 4], pairs))
+        out.append((tag + "/every-value-kind", cs))
+        # nested: in a cycle through its own state, as set member / dict key / tuple slot / attribute of another instance
+        c = _with_state(I.COPYABLES[ni % 4], [(nm, None), ("tail", 1)])
+        L = [c]; c.__dict__[nm] = L
+        t = (_with_state(I.CB, [(nm, nm)]), L)
+        o = _with_state(I.CD, [("o", 0), (nm, _with_state(I.CA, [(nm, t)]))])
+        out.append((tag + "/nested", [L, {c}, {c: [c]}, t, o, {"k": (o, t)}]))
+    # several unusual names in ONE state (with "" at every position)
+    several = ["", "0", " ", "list", "é", "x" * 128]
+    for r in range(len(several) if full else 3):
+        rot = several[r:] + several[:r]
+        out.append(("attrname-several/rot%d" % r, [_with_state(I.CA, [(nm, [i, nm.encode("utf-8")][i % 2]) for i, nm in enumerate(rot)]),
+                                                    _with_state(I.CB, [(nm, [nm]) for nm in rot[::-1]])]))
+    if full:
+        out.append(("attrname-very-long", [_with_state(I.CA, [("L" * 5000, 1), ("", 2)])]))
+    return out
+
+
+def attrname_calls(I):
+    def S(cls, *pairs):
+        return _with_state(cls, pairs)
+    l = [1]
+    return [
+        ("call-attrname-empty", [((S(I.CA, ("", 7)), [S(I.CB, ("", b"x"), ("n", 1))]), {"kw": S(I.CC, ("a", 1), ("", "s"))}),
+                                 ((), {"k": (S(I.CD, ("", l), ("l", l)), l)})]),
+        ("call-attrname-unusual", [(tuple(S(I.COPYABLES[i % 4], (nm, i), ("", nm), ("z", [nm.encode("utf-8")]))
+                                          for i, nm in enumerate(["0", " ", "list", "verif.c01.A", "é", "x" * 128, "\x00"])), {}),
+                                   (([S(I.CA, ("", None))],), {})]),
+    ]
 
 
 def shared_through_copyable_calls(I):
